@@ -118,11 +118,18 @@ pub fn inputs_c04(r: &mut Rng, n: usize, _tier: &str, out: &mut dyn Write) {
             7 => writeln!(out, "esubu {}:{} {}", dstr(e), ts, unit_name(r)).unwrap(),
             8 => {
                 // float seconds that are exact integers
-                let k: i64 = match r.below(5) {
+                let k: i64 = match r.below(7) {
                     0 => r.range_i64(-100, 100),
                     1 => r.range_i64(-4_000_000_000, 4_000_000_000),
                     2 => r.range_i64(-9_007_199, 9_007_199),
                     3 => *r.pick(&[0i64, 1, -1, 86400, -86400, 9_007_199, -9_007_199]),
+                    5 | 6 => {
+                        // large integers whose product with 1e9 is still exact in binary64: small * 2^a * 5^b
+                        let small = r.range_i64(-999, 999);
+                        let mut v = small;
+                        for _ in 0..r.below(12) { if v.abs() < 30_000_000_000 { v *= *r.pick(&[2i64, 5, 10]); } }
+                        v
+                    }
                     _ => r.range_i64(-315_576_000_000, 315_576_000_000),
                 };
                 writeln!(out, "eaddf {}:{} {}", dstr(e), ts, f2s(k as f64)).unwrap()
